@@ -29,7 +29,8 @@ RULE = (
     "the junk untouched; (3) rows permuted within tables, tables permuted within a sheet, sheets permuted give identical "
     "reports; (4) asset X alone (-a X, or a config listing only X) gives the same X sheets, the same X rows in shared sheets "
     "and the same X balances / costs as X among others; in-process: one engine object reused for the assets in different "
-    "orders gives each asset the trace of a fresh engine; in-process relation 3 at volume: row numbers permuted within the "
+    "orders gives each asset the trace of a fresh engine; (5) two runs in one interpreter (another input first, then this one) give "
+    "the second run the reports of a fresh process; in-process relation 3 at volume: row numbers permuted within the "
     "tables of single-asset histories whose timestamps are distinct but down to 1 microsecond apart (all methods, schedules) "
     "give the same fractions through the unique ids. Non-trivial = input with >= 2 assets whose sheets reuse row numbers; "
     "distinct = hash of (input, relation)"
@@ -40,8 +41,8 @@ ASSUMPTIONS = [
     "reports are compared on cell values and formula text as read back by ezodf, not on bytes (ODS files embed nothing time-dependent that RP2 controls, but zip metadata may differ)",
 ]
 SETTINGS: Dict[str, Dict[str, Any]] = {
-    "quick": {"cases": 16, "inproc_cases": 300, "inproc_perm_cases": 1600, "budget_s": 75, "minimums": {"relation_1": 12, "relation_2": 12, "relation_3": 12, "relation_4": 12, "inproc_engine_reuse": 200, "inproc_row_permutation": 1000, "inproc_row_permutation_with_sub_second_lots": 200, "nontrivial": 12}},
-    "thorough": {"cases": 200, "inproc_cases": 8000, "inproc_perm_cases": 60000, "budget_s": 600, "minimums": {"relation_1": 150, "relation_2": 150, "relation_3": 150, "relation_4": 150, "inproc_engine_reuse": 5000, "inproc_row_permutation": 30000, "inproc_row_permutation_with_sub_second_lots": 6000, "nontrivial": 150}},
+    "quick": {"cases": 16, "inproc_cases": 300, "inproc_perm_cases": 1600, "budget_s": 75, "minimums": {"relation_1": 12, "relation_2": 12, "relation_3": 12, "relation_4": 12, "relation_5": 12, "inproc_engine_reuse": 200, "inproc_row_permutation": 1000, "inproc_row_permutation_with_sub_second_lots": 200, "nontrivial": 12}},
+    "thorough": {"cases": 200, "inproc_cases": 8000, "inproc_perm_cases": 60000, "budget_s": 600, "minimums": {"relation_1": 150, "relation_2": 150, "relation_3": 150, "relation_4": 150, "relation_5": 150, "inproc_engine_reuse": 5000, "inproc_row_permutation": 30000, "inproc_row_permutation_with_sub_second_lots": 6000, "nontrivial": 150}},
 }
 REPORTS = COUNTRY_REPORTS["us"]
 
@@ -82,11 +83,17 @@ def shuffled(hists: Dict[str, Dict[str, Any]], rng: random.Random) -> Dict[str, 
 def make_case(rng: random.Random) -> Dict[str, Any]:
     profile = cli_profile(tie_prob=0.0, max_events=rng.choice((8, 14)), min_events=5, n_exchanges=2, n_holders=2, p_earn=0.4, price_style=rng.choice(("equal", "small")))
     hists = cli_histories(rng, rng.choice((2, 3)), profile)
+    if rng.random() < 0.35:
+        # acquisitions with a crypto fee less than a second apart (the parser re-creates such rows: their instants must survive)
+        from rpv import families
+
+        victim = sorted(hists)[-1]
+        hists[victim] = families.same_second_fee_lots(rng, victim)
     other = cli_histories(rng, 2, profile)
     return {"hists": hists, "other": other, "method": rng.choice(METHODS), "perm_seed": rng.randint(0, 10**9)}
 
 
-def _one(ctx: Any, case: Dict[str, Any], name: str, relations: Tuple[int, ...] = (1, 2, 3, 4)) -> None:
+def _one(ctx: Any, case: Dict[str, Any], name: str, relations: Tuple[int, ...] = (1, 2, 3, 4, 5)) -> None:
     ws = Workspace(ctx.scratch, name)
     try:
         hists = copy.deepcopy(case["hists"])
@@ -156,6 +163,49 @@ def _one(ctx: Any, case: Dict[str, Any], name: str, relations: Tuple[int, ...] =
                 ctx.count("relation_3")
             finally:
                 ws_p.cleanup()
+
+        if 5 in relations:
+            # two runs in ONE interpreter (an embedding program, a test driver): first the other input, then this one, into fresh
+            # output directories; the second run must report what a fresh process reports (state kept in class attributes of
+            # the generators or in module-level objects between the runs would show here)
+            ws_other = Workspace(ctx.scratch, name + "-other5")
+            try:
+                ws_other.write(copy.deepcopy(case["other"]))
+                out_first, out_second = ws.new_out(), ws.new_out()
+                code = (
+                    "import sys\n"
+                    "from rp2.plugin.country.us import rp2_entry\n"
+                    "status = []\n"
+                    "for argv in (%r, %r):\n"
+                    "    sys.argv = ['rp2_us'] + argv\n"
+                    "    try:\n"
+                    "        rp2_entry()\n"
+                    "        status.append(0)\n"
+                    "    except SystemExit as exc:\n"
+                    "        status.append(exc.code or 0)\n"
+                    "print('STATUS', status)\n"
+                ) % (args + ["-o", out_first, ws_other.ini, ws_other.ods], args + ["-o", out_second, ws.ini, ws.ods])
+                import subprocess as _subprocess
+
+                from rpv.common import PYTHON, rp2_src
+
+                env = dict(os.environ, PYTHONPATH=rp2_src(), PYTHONDONTWRITEBYTECODE="1", PYTHONHASHSEED="0")
+                proc = _subprocess.run([PYTHON, "-c", code], cwd=ws.root, env=env, capture_output=True, text=True, timeout=600)
+                ctx.count("executions", 2)
+                if "STATUS [0, 0]" in proc.stdout:
+                    second: Dict[str, Any] = {}
+                    for report_name in REPORTS:
+                        path = os.path.join(out_second, f"{case['method']}_{report_name}.ods")
+                        if os.path.exists(path):
+                            second[report_name] = _matrices(path)
+                    diff = _first_difference(reference, second)
+                    if diff:
+                        ctx.violation("determinism.second-run-in-one-interpreter-differs-from-a-fresh-process", diff, dict(case, relation=5))
+                    ctx.count("relation_5")
+                else:
+                    ctx.tag("tag_relation5_unobservable", (proc.stdout[-80:] + proc.stderr[-120:]).strip())
+            finally:
+                ws_other.cleanup()
 
         if 4 in relations:
             for asset in sorted(hists):
@@ -323,7 +373,7 @@ def replay(ctx: Any, case: Dict[str, Any]) -> None:
                 if got != fresh[h["asset"]]:
                     ctx.violation("determinism.engine-state-leaks-across-assets", {"asset": h["asset"]}, case)
         return
-    _one(ctx, case, "replay", relations=(case["relation"],) if case.get("relation") else (1, 2, 3, 4))
+    _one(ctx, case, "replay", relations=(case["relation"],) if case.get("relation") else (1, 2, 3, 4, 5))
 
 
 def coverage(merged: Dict[str, Any], tier: str) -> Dict[str, Any]:
@@ -336,6 +386,7 @@ def coverage(merged: Dict[str, Any], tier: str) -> Dict[str, Any]:
             "inputs_checked_for_output_directory_independence": c.get("relation_2", 0),
             "inputs_checked_for_order_independence": c.get("relation_3", 0),
             "inputs_checked_for_asset_independence": c.get("relation_4", 0),
+            "inputs_checked_as_second_run_in_one_interpreter": c.get("relation_5", 0),
             "in_process_engine_reuse_cases": c.get("inproc_engine_reuse", 0),
             "in_process_row_permutation_cases": c.get("inproc_row_permutation", 0),
             "of_which_with_lots_less_than_a_second_apart": c.get("inproc_row_permutation_with_sub_second_lots", 0),
